@@ -29,8 +29,8 @@ Section Msg.
   Variable strat : strategy.
   Variable nconns : nat.
   Variable tgt : nat -> N.
-  Notation step := (step strat nconns tgt).
-  Notation reachable := (reachable strat nconns tgt).
+  Notation step := (step strat false nconns tgt).
+  Notation reachable := (reachable strat false nconns tgt).
 
   (** the ghost field [log] grows only by heads of the connection that is the best
       one in that very state: at subscribe (its current head) and when Run starts
@@ -45,21 +45,25 @@ Section Msg.
     - right. destruct u as [c h]. exists c, h. sred.
       repeat apply conj; [reflexivity|apply same_best_true; assumption|].
       right. eexists. split; reflexivity.
-    - right. exists n, (head s n). repeat apply conj; [reflexivity|reflexivity|].
+    - right. match goal with H : best s = Some ?b |- _ => exists b, (head s b) end.
+      repeat apply conj; [reflexivity|reflexivity|].
       left. eexists. split; reflexivity.
   Qed.
+
+  (** the caller has left its loop with nil (and is about to unsubscribe / has returned) *)
+  Definition succeeded (pc : wait_pc) : Prop :=
+    pc = WUnsub ROk \/ pc = WUnsubW ROk \/ pc = WDone ROk.
 
   Definition msg_inv (s : state) : Prop :=
     (forall w m, wch s w = Some m -> In m (log s)) /\
     (forall w m, wgot s w = Some m -> In m (log s)) /\
     (forall u mt w rem, rpc s = RNotify u mt (w :: rem) -> In u (log s)) /\
-    (forall w, (wpc s w = WUnsub ROk \/ wpc s w = WDone ROk) <->
-               exists m, wgot s w = Some m /\ (tgt w <= snd m)%N).
+    (forall w, succeeded (wpc s w) <-> exists m, wgot s w = Some m /\ (tgt w <= snd m)%N).
 
   Lemma msg_inv_init heads b : msg_inv (init_state heads b).
   Proof.
     unfold msg_inv, init_state. sred. repeat apply conj; try discriminate.
-    intros w. split; [intros [H|H]; discriminate|intros (m & H & _); discriminate].
+    intros w. split; [intros [H|[H|H]]; discriminate|intros (m & H & _); discriminate].
   Qed.
 
   Ltac inlog :=
@@ -71,6 +75,7 @@ Section Msg.
   Proof.
     intros (Hch & Hgot & Hnot & Hok) Hs. unfold msg_inv.
     assert (Hok1 := fun w => proj1 (Hok w)). assert (Hok2 := fun w => proj2 (Hok w)). clear Hok.
+    unfold succeeded in *.
     step_inv Hs; guards; sred.
     all: repeat apply conj.
     all: intros; try split; intros; fu; sred.
@@ -81,12 +86,13 @@ Section Msg.
          end.
     all: try congruence.
     all: inlog.
-    all: try solve [match goal with H : _ = _ \/ _ = _ |- _ => destruct H as [H|H]; try discriminate H end;
-                    first [ apply Hok1; left; congruence | apply Hok1; right; congruence
+    all: try solve [match goal with H : _ = _ \/ _ = _ \/ _ = _ |- _ => destruct H as [H|[H|H]]; try discriminate H end;
+                    first [ apply Hok1; left; congruence | apply Hok1; right; left; congruence
+                          | apply Hok1; right; right; congruence
                           | eexists; split; [reflexivity|assumption] ]].
     all: try solve [match goal with H : exists _, wgot _ _ = Some _ /\ _ |- _ =>
-                      apply Hok2 in H; destruct H as [H|H];
-                      first [congruence | left; congruence | right; congruence] end].
+                      apply Hok2 in H; destruct H as [H|[H|H]];
+                      first [congruence | left; congruence | right; left; congruence | right; right; congruence] end].
     all: try solve [match goal with H : exists _, Some _ = Some _ /\ _ |- _ =>
                       destruct H as (? & [= <-] & ?); lia end].
     all: try solve [eapply Hnot; reflexivity].
@@ -166,8 +172,7 @@ Section Msg.
       connection that was the best one when it was sent ([log], see
       [log_from_best]) and the connection had really reached it *)
   Theorem wait_success heads b s w :
-    reachable (init_state heads b) s ->
-    (wpc s w = WUnsub ROk \/ wpc s w = WDone ROk) ->
+    reachable (init_state heads b) s -> succeeded (wpc s w) ->
     exists c h, wgot s w = Some (c, h) /\ (tgt w <= h)%N /\ In (c, h) (log s) /\ (h <= head s c)%N.
   Proof.
     intros Hr Hpc.
@@ -180,8 +185,7 @@ Section Msg.
 
   Theorem wait_success_iff heads b s w :
     reachable (init_state heads b) s ->
-    ((wpc s w = WUnsub ROk \/ wpc s w = WDone ROk) <->
-     exists m, wgot s w = Some m /\ (tgt w <= snd m)%N).
+    (succeeded (wpc s w) <-> exists m, wgot s w = Some m /\ (tgt w <= snd m)%N).
   Proof. intros Hr. destruct (msg_inv_reachable _ _ _ Hr) as (_ & _ & _ & Hok). apply Hok. Qed.
 
   (** a waiter in its loop can always take the timeout / cancel branch, and takes
@@ -230,8 +234,11 @@ Section Msg.
   (** [woff s w] is the ghost list of all heads sent into w's channel.  While the
       waiter has not left, a sufficient head among them is still in the channel
       (or a newer one is): replacing the pending head keeps the larger seqno. *)
+  Definition not_left (pc : wait_pc) : bool :=
+    match pc with WNew | WSubW | WSubL | WWait => true | _ => false end.
+
   Definition offer_inv (s : state) : Prop :=
-    forall w, (wpc s w = WNew \/ wpc s w = WSubL \/ wpc s w = WWait) ->
+    forall w, not_left (wpc s w) = true ->
       forall m, In m (woff s w) -> (tgt w <= snd m)%N ->
         exists m', wch s w = Some m' /\ (tgt w <= snd m')%N.
 
@@ -242,13 +249,15 @@ Section Msg.
   Proof.
     intros Hoff Hs. unfold offer_inv.
     step_inv Hs; guards; sred; try exact Hoff.
-    all: intros w' Hpc m' Hin Hle; fu; sred.
+    all: intros w' Hpc m' Hin Hle; fu; sred; cbn [not_left] in *.
     all: repeat match goal with
          | H : (_ <=? _)%N = true |- _ => apply N.leb_le in H
          | H : (_ <=? _)%N = false |- _ => apply N.leb_gt in H
          end.
     all: try solve [eapply Hoff; eauto].
-    all: try solve [destruct Hpc as [Hpc|[Hpc|Hpc]]; discriminate Hpc].
+    all: try discriminate.
+    all: try solve [eapply Hoff; eauto; match goal with H : wpc _ _ = _ |- _ => rewrite H; reflexivity end].
+    all: try solve [destruct (_ <=? _)%N; discriminate].
     - (* LSend into w's channel: the channel keeps the newer head *)
       exists (newer (wch s n) u). split; [reflexivity|].
       apply in_app_or in Hin as [Hin|[Heq|[]]].
@@ -258,7 +267,8 @@ Section Msg.
     - (* subscribe, head already there *)
       eexists. split; [reflexivity|]. sred. assumption.
     - (* receive of an insufficient head: then nothing sufficient had been offered *)
-      exfalso. assert (Hpc0 : wpc s w = WNew \/ wpc s w = WSubL \/ wpc s w = WWait) by auto.
+      exfalso. assert (Hpc0 : not_left (wpc s w) = true)
+        by (match goal with H : wpc s w = _ |- _ => rewrite H; reflexivity end).
       destruct (Hoff _ Hpc0 _ Hin Hle) as (m0 & Hch & Hle0).
       match goal with H : wch s w = Some _ |- _ => rewrite H in Hch; injection Hch as <- end. lia.
   Qed.
@@ -278,7 +288,8 @@ Section Msg.
                   step s (LRecv w) = Some s' /\ wpc s' w = WUnsub ROk.
   Proof.
     intros Hr Hpc Hin Hle.
-    destruct (offer_inv_reachable _ _ _ Hr w (or_intror (or_intror Hpc)) m Hin Hle) as (m' & Hch & Hle').
+    assert (Hnl : not_left (wpc s w) = true) by (rewrite Hpc; reflexivity).
+    destruct (offer_inv_reachable _ _ _ Hr w Hnl m Hin Hle) as (m' & Hch & Hle').
     destruct (wait_recv_enabled s w m' Hpc Hch) as (s' & Hs & Hpc' & _).
     exists m', s'. repeat apply conj; auto.
     rewrite Hpc'. apply N.leb_le in Hle'. rewrite Hle'. reflexivity.
